@@ -455,7 +455,31 @@ func ruleOPT11(c *Ctx) {
 			}
 		}
 		name := f.Name()
+		// every path of the branch that does not fail ends in Variable.Assign: no `nothing to do` shortcut
+		skips := false
+		if asg != nil {
+			t, _ := reach(efn, tb.Instrs[0], func(in ssa.Instruction) bool {
+				ret, isRet := in.(*ssa.Return)
+				if !isRet {
+					return false
+				}
+				if ret.Results[0] == asg.Value() {
+					return false
+				}
+				return !returnsNonNilError(ret)
+			}, func(in ssa.Instruction) bool { return in == asg.(ssa.Instruction) }, func(bb *ssa.BasicBlock, si int) bool {
+				return tb.Dominates(bb.Succs[si])
+			})
+			if isRetNilAtStart(tb, asg) {
+				skips = true
+			}
+			if t != nil {
+				skips = true
+			}
+		}
 		switch {
+		case skips:
+			flagOK[name] = "the branch can return success without calling Variable.Assign: on that path the assignment is silently skipped (any `nothing to do` test is coarser than identity of value, kind and location)"
 		case asg == nil:
 			flagOK[name] = "no Variable.Assign in this branch"
 		case arith == nil:
@@ -901,4 +925,11 @@ func ruleASG1(c *Ctx) {
 	if n == 0 {
 		c.Fail("Variable.Assign / sink calls", p.Pos(fn.Pos()), "no fact-write sink call found (anchor lost)")
 	}
+}
+
+func isRetNilAtStart(b *ssa.BasicBlock, asg ssa.CallInstruction) bool {
+	if ret, ok := b.Instrs[0].(*ssa.Return); ok {
+		return ret.Results[0] != asg.Value() && !returnsNonNilError(ret)
+	}
+	return false
 }
